@@ -1,7 +1,7 @@
 (** C36 radix tree — final refinement lemmas: for every history of Insert / Get / DeletePrefix /
     Minimum / Maximum the pre-order walk of the tree IS the abstract sorted map, Get is its
-    lookup and Len its size; all returned values agree with the abstract map, with
-    Minimum / Maximum only as long as no DeletePrefix has left a dead node behind.
+    lookup and Len its size; all returned values (Minimum / Maximum included) agree with the
+    abstract map, because neither Insert nor DeletePrefix ever leaves a dead node behind.
 
     Split: [C36_radix_ord] (order on byte strings, prefixes, list lemmas),
     [C36_radix_wf] (invariant, keys of the walk, sortedness, Get),
@@ -14,9 +14,11 @@ From Coq Require Import Sorted.
 (** the structural invariant of [C36_radix_wf] under the name used in [Model/C36_radix.v] *)
 Notation rwf := wf (only parsing).
 
-(** ** trees without dead nodes: every non-root node has a leaf or an edge *)
+(** ** trees without dead nodes — in fact the compressed-trie invariant: every non-root node
+    is a leaf or has at least two edges ([nd] for a non-root node, [nde] for the edges of any
+    node; the root itself is exempt) *)
 Fixpoint nd (n : rnode) : Prop :=
-  match n with RNode leaf _ es => (leaf <> None \/ es <> ENil) /\ nde es end
+  match n with RNode leaf _ es => (leaf <> None \/ (2 <= ecount es)%nat) /\ nde es end
 with nde (es : redges) : Prop :=
   match es with ENil => True | ECons _ ch rest => nd ch /\ nde rest end.
 
@@ -33,7 +35,8 @@ Proof.
   apply rnode_redges_ind.
   - intros leaf p es IH [[H|H] He]; rewrite walk_node.
     + destruct leaf; [discriminate | contradiction].
-    + intro E. apply app_eq_nil in E as [_ E]. revert E. apply IH; assumption.
+    + intro E. apply app_eq_nil in E as [_ E]. revert E. apply IH; [assumption|].
+      destruct es; [simpl in H; lia | discriminate].
   - intros _ H; contradiction.
   - intros l ch IHc rest IHr [Hc Hr] _. rewrite walk_edges_cons.
     intro E. apply app_eq_nil in E as [E _]. revert E. apply IHc, Hc.
@@ -100,12 +103,18 @@ Proof.
   - destruct He as [Hc Hr]. destruct (N.ltb l c); simpl; auto.
 Qed.
 
+Lemma ecount_add_edge es c n : ecount (add_edge es c n) = S (ecount es).
+Proof.
+  induction es as [|l ch rest IH]; simpl; [reflexivity|].
+  destruct (N.ltb l c); simpl; [rewrite IH|]; reflexivity.
+Qed.
+
 Lemma ins_nd_both :
   (forall n search s v n' ins r, ins_node n search s v = (n', ins, r) ->
      (nde (r_edges n) -> nde (r_edges n')) /\ (nd n -> nd n')) /\
   (forall es c search s v, nde es ->
      match ins_edges es c search s v with
-     | Some (es', _, _) => nde es' /\ es' <> ENil
+     | Some (es', _, _) => nde es' /\ ecount es' = ecount es
      | None => True
      end).
 Proof.
@@ -122,10 +131,11 @@ Proof.
         injection E as <- <- <-; cbn [r_edges].
       * split.
         -- intro He. apply IH, He.
-        -- intros [_ He]. destruct (IH He) as [H1 H2]. split; [right; exact H2 | exact H1].
+        -- intros [Hd He]. destruct (IH He) as [H1 H2]. split; [rewrite H2; exact Hd | exact H1].
       * split.
         -- intro He. apply nde_add_edge; assumption.
-        -- intros [_ He]. split; [right; apply add_edge_not_nil | apply nde_add_edge; assumption].
+        -- intros [Hd He]. split; [|apply nde_add_edge; assumption].
+           destruct Hd as [Hd|Hd]; [left; exact Hd | right; rewrite ecount_add_edge; lia].
   - intros; exact I.
   - intros l ch IHc rest IHr c search s v [Hc Hr]. cbn [ins_edges].
     destruct (N.eqb l c).
@@ -133,25 +143,81 @@ Proof.
       destruct (Nat.eqb (lcp search cp) (length cp)).
       * destruct (ins_node (RNode cl cp ces) (skipn (lcp search cp) search) s v)
           as [[ch' ins] r] eqn:EI.
-        apply IHc in EI as [_ EI]. split; [|discriminate]. split; [apply EI, Hc | exact Hr].
-      * split; [|discriminate]. split; [|exact Hr].
+        apply IHc in EI as [_ EI]. split; [|reflexivity]. split; [apply EI, Hc | exact Hr].
+      * split; [|reflexivity]. split; [|exact Hr].
         assert (NO : nd (RNode cl (skipn (lcp search cp) cp) ces)) by exact Hc.
         assert (NLOW : nde (add_edge ENil (nth (lcp search cp) cp 0%N)
                                      (RNode cl (skipn (lcp search cp) cp) ces))).
         { simpl. split; [exact NO | exact I]. }
         destruct (skipn (lcp search cp) search) as [|c' sr] eqn:ES.
         -- split; [left; discriminate | exact NLOW].
-        -- split; [right; apply add_edge_not_nil|].
+        -- split; [right; rewrite !ecount_add_edge; simpl; lia|].
            apply nde_add_edge; [exact NLOW|].
            simpl. split; [left; discriminate | exact I].
     + specialize (IHr c search s v Hr).
       destruct (ins_edges rest c search s v) as [[[rest' ins] r]|]; [|exact I].
-      split; [|discriminate]. split; [exact Hc | apply IHr].
+      destruct IHr as [H1 H2]. split; [split; assumption|]. simpl. rewrite H2. reflexivity.
+Qed.
+
+(** [DeletePrefix] creates no dead node either: the emptied child is unlinked ([delEdge]); its
+    parent keeps a leaf, or keeps >= 2 edges, or has exactly one edge left and is merged with
+    that child, or is the root. *)
+Lemma del_nd_both :
+  (forall n b prefix n' cnt, del_node b n prefix = (n', cnt) ->
+     (nde (r_edges n) -> b = true -> nde (r_edges n'))
+     /\ (nd n -> b = false -> prefix <> [] -> nd n')) /\
+  (forall es c prefix, nde es ->
+     match del_edges es c prefix with
+     | Some (es', _, cleared) =>
+         nde es' /\ (if cleared then ecount es = S (ecount es') else ecount es' = ecount es)
+     | None => True
+     end).
+Proof.
+  apply rnode_redges_ind.
+  - intros leaf p es IH b prefix n' cnt E.
+    destruct prefix as [|c tl]; cbn [del_node] in E.
+    + injection E as <- <-. split; [intros; exact I | intros _ _ H; contradiction].
+    + specialize (IH c (c :: tl)).
+      destruct (del_edges es c (c :: tl)) as [[[es' cnt'] cleared]|].
+      * split.
+        -- intros He ->. cbn [negb] in E. rewrite andb_false_r in E. cbn [andb] in E.
+           injection E as <- <-. cbn [r_edges]. apply IH, He.
+        -- intros [Hd He] -> _. destruct (IH He) as [H1 H2]. cbn [negb] in E.
+           assert (GEN : (RNode leaf p es', cnt') = (n', cnt) ->
+                         (leaf <> None \/ cleared = false \/ (2 <= ecount es')%nat) -> nd n').
+           { intros E' C. injection E' as <- <-. split; [|exact H1].
+             destruct C as [C|[C|C]]; [left; exact C | | right; exact C].
+             subst cleared. rewrite H2. exact Hd. }
+           destruct (cleared && true && is_none leaf) eqn:M.
+           ++ apply andb_true_iff in M as [M M3]. apply andb_true_iff in M as [M1 _].
+              subst cleared. destruct leaf; [discriminate|].
+              destruct Hd as [Hd|Hd]; [contradiction|].
+              destruct es' as [|l1 [cl1 cp1 ces1] [|l2 ch2 r2]].
+              ** simpl in H2. lia.
+              ** injection E as <- <-. exact (proj1 H1).
+              ** apply (GEN E). right; right. simpl. lia.
+           ++ apply (GEN E). destruct cleared; [|auto]. destruct leaf; [left; discriminate|].
+              simpl in M. discriminate.
+      * injection E as <- <-. split; [intros He _; exact He | intros Hd _ _; exact Hd].
+  - intros; exact I.
+  - intros l ch IHc rest IHr c prefix [Hc Hr]. cbn [del_edges].
+    destruct (N.eqb l c).
+    + destruct ch as [cl cp ces].
+      destruct (negb (has_prefix cp prefix) && negb (has_prefix prefix cp)); [exact I|].
+      destruct (if Nat.ltb (length prefix) (length cp) then [] else skipn (length cp) prefix)
+        as [|x r'] eqn:EP.
+      * split; [exact Hr | reflexivity].
+      * destruct (del_node false (RNode cl cp ces) (x :: r')) as [ch' cnt] eqn:ED.
+        apply IHc in ED as [_ ED].
+        split; [|reflexivity]. split; [|exact Hr]. apply ED; [exact Hc | reflexivity | discriminate].
+    + specialize (IHr c prefix Hr).
+      destruct (del_edges rest c prefix) as [[[rest' cnt] cleared]|]; [|exact I].
+      destruct IHr as [H1 H2]. split; [split; assumption|].
+      destruct cleared; simpl; rewrite H2; reflexivity.
 Qed.
 
 (** ** one operation *)
 Definition is_minmax (o : rop) : bool := match o with RMin | RMax => true | _ => false end.
-Definition is_del (o : rop) : bool := match o with RDelPrefix _ => true | _ => false end.
 
 Lemma robs_eqb_refl x : robs_eqb x x = true.
 Proof.
@@ -163,16 +229,16 @@ Lemma r_step_spec t a o t' ob :
   tree_inv t a -> r_step t o = (t', ob) ->
   tree_inv t' (smap_step a o)
   /\ (is_minmax o = false \/ nde (r_edges (r_root t)) -> ob = smap_obs a o)
-  /\ (nde (r_edges (r_root t)) -> is_del o = false -> nde (r_edges (r_root t'))).
+  /\ (nde (r_edges (r_root t)) -> nde (r_edges (r_root t'))).
 Proof.
-  intros Inv E. destruct o as [k v|k|p| |]; cbn [r_step smap_step is_minmax is_del] in *.
+  intros Inv E. destruct o as [k v|k|p| |]; cbn [r_step smap_step is_minmax] in *.
   - (* Insert *)
     destruct (r_insert t k v) as [[t1 ins] r] eqn:EI. injection E as <- <-.
     destruct (r_insert_spec _ _ _ _ _ _ _ Inv EI) as [Inv' R].
     split; [exact Inv'|]. split.
     + intros _. destruct Inv' as (_ & _ & Hs). unfold smap_obs. cbn [smap_step]. rewrite Hs.
       destruct (smap_get k a); injection R as -> ->; reflexivity.
-    + intros Hn _. unfold r_insert in EI.
+    + intros Hn. unfold r_insert in EI.
       destruct (ins_node (r_root t) k k v) as [[root' ins0] r0] eqn:EN.
       injection EI as <- _ _. cbn [r_root].
       apply (proj1 ins_nd_both) in EN as [EN _]. apply EN, Hn.
@@ -183,13 +249,17 @@ Proof.
     + destruct (smap_get k a); injection E as <- _; exact Inv.
     + intros _. unfold smap_obs. cbn [smap_step]. rewrite <- Hs.
       destruct (smap_get k a); injection E as _ <-; reflexivity.
-    + intros Hn _. destruct (smap_get k a); injection E as <- _; exact Hn.
+    + intros Hn. destruct (smap_get k a); injection E as <- _; exact Hn.
   - (* DeletePrefix *)
     destruct (r_delete_prefix t p) as [t1 cnt] eqn:ED. injection E as <- <-.
     destruct (r_delete_prefix_spec _ _ _ _ _ Inv ED) as [Inv' ->].
-    split; [exact Inv'|]. split; [|discriminate].
-    intros _. destruct Inv' as (_ & _ & Hs). unfold smap_obs. cbn [smap_step]. rewrite Hs.
-    reflexivity.
+    split; [exact Inv'|]. split.
+    + intros _. destruct Inv' as (_ & _ & Hs). unfold smap_obs. cbn [smap_step]. rewrite Hs.
+      reflexivity.
+    + intros Hn. unfold r_delete_prefix in ED.
+      destruct (del_node true (r_root t) p) as [root' cnt0] eqn:EN.
+      injection ED as <- _. cbn [r_root].
+      apply (proj1 del_nd_both) in EN as [EN _]. apply EN; [exact Hn | reflexivity].
   - (* Minimum *)
     assert (Hs : r_size t = Z.of_nat (length a)) by apply Inv.
     assert (Ht : t' = t) by (destruct (min_node (r_root t)) as [[k v]|]; injection E as <- _; reflexivity).
@@ -247,7 +317,43 @@ Proof.
   - apply (tree_inv_sorted _ _ Inv).
 Qed.
 
-(** histories free of the Min/Max defect: no Minimum/Maximum after a DeletePrefix *)
+Lemma nde_new : nde (r_edges (r_root r_new)).
+Proof. exact I. Qed.
+
+(** from any well-formed state without dead nodes *)
+Lemma run_oracle ops : forall t a t' obs,
+  tree_inv t a -> nde (r_edges (r_root t)) ->
+  r_run t ops = (t', obs) ->
+  smap_oracle a ops obs = true /\ nde (r_edges (r_root t')).
+Proof.
+  induction ops as [|o ops IH]; intros t a t' obs Inv Hn E; cbn [r_run] in E.
+  - injection E as <- <-. split; [reflexivity | exact Hn].
+  - destruct (r_step t o) as [t1 ob] eqn:ES.
+    destruct (r_run t1 ops) as [t2 obs'] eqn:ER. injection E as <- <-.
+    destruct (r_step_spec _ _ _ _ _ Inv ES) as (Inv' & Hob & Hnd).
+    cbn [smap_oracle]. rewrite (Hob (or_intror Hn)), robs_eqb_refl. cbn [andb].
+    eapply IH; eauto.
+Qed.
+
+(** No dead node is ever created: on every reachable tree all non-root nodes are leaves or
+    have at least two edges. *)
+Lemma radix_no_dead_node : forall ops t obs, r_run r_new ops = (t, obs) ->
+  nde (r_edges (r_root t)).
+Proof.
+  intros ops t obs E. eapply (run_oracle ops r_new []); eauto using tree_inv_new, nde_new.
+Qed.
+
+(** For ALL histories: every returned value — Insert's (value, inserted), Get's (value, found),
+    DeletePrefix's count, Len after each operation, Minimum / Maximum = first / last binding —
+    equals the abstract sorted map's answer. *)
+Lemma radix_obs_oracle : forall ops t obs, r_run r_new ops = (t, obs) ->
+  smap_oracle [] ops obs = true.
+Proof.
+  intros ops t obs E. eapply (run_oracle ops r_new []); eauto using tree_inv_new, nde_new.
+Qed.
+
+(** (kept for compatibility: the restriction to histories without Minimum/Maximum after a
+    DeletePrefix, needed before [delEdge] was added, is now a trivial corollary) *)
 Fixpoint minmax_safe (seen_del : bool) (ops : list rop) : bool :=
   match ops with
   | [] => true
@@ -256,40 +362,9 @@ Fixpoint minmax_safe (seen_del : bool) (ops : list rop) : bool :=
   | _ :: r => minmax_safe seen_del r
   end.
 
-Lemma run_oracle ops : forall t a sd t' obs,
-  tree_inv t a -> (sd = false -> nde (r_edges (r_root t))) ->
-  r_run t ops = (t', obs) -> minmax_safe sd ops = true ->
-  smap_oracle a ops obs = true.
-Proof.
-  induction ops as [|o ops IH]; intros t a sd t' obs Inv Hn E S; cbn [r_run] in E.
-  - injection E as _ <-. reflexivity.
-  - destruct (r_step t o) as [t1 ob] eqn:ES.
-    destruct (r_run t1 ops) as [t2 obs'] eqn:ER. injection E as _ <-.
-    destruct (r_step_spec _ _ _ _ _ Inv ES) as (Inv' & Hob & Hnd).
-    cbn [smap_oracle].
-    assert (OB : ob = smap_obs a o).
-    { apply Hob. destruct o; cbn [is_minmax]; auto; cbn [minmax_safe] in S;
-        apply andb_true_iff in S as [S _]; right; apply Hn;
-        (destruct sd; [discriminate | reflexivity]). }
-    rewrite OB, robs_eqb_refl. cbn [andb].
-    destruct o as [k v|k|p| |]; cbn [minmax_safe] in S.
-    + eapply (IH _ _ sd); eauto.
-    + eapply (IH _ _ sd); eauto.
-    + eapply (IH _ _ true); eauto. discriminate.
-    + apply andb_true_iff in S as [_ S]. eapply (IH _ _ sd); eauto.
-    + apply andb_true_iff in S as [_ S]. eapply (IH _ _ sd); eauto.
-Qed.
-
-(** Every returned value — Insert's (value, inserted), Get's (value, found), DeletePrefix's
-    count, Len after each operation, Minimum / Maximum = first / last binding — equals the
-    abstract sorted map's answer, on histories without Minimum/Maximum after a DeletePrefix. *)
-Lemma radix_obs_oracle : forall ops t obs, r_run r_new ops = (t, obs) ->
+Lemma radix_obs_oracle_safe : forall ops t obs, r_run r_new ops = (t, obs) ->
   minmax_safe false ops = true -> smap_oracle [] ops obs = true.
-Proof.
-  intros ops t obs E S.
-  eapply (run_oracle ops r_new [] false); eauto using tree_inv_new.
-  intros _. simpl. exact I.
-Qed.
+Proof. intros ops t obs E _. eapply radix_obs_oracle, E. Qed.
 
 (** For ARBITRARY histories: all observations other than those of Minimum / Maximum are the
     abstract map's answers ([patch_minmax] replaces the Min/Max observations by the abstract
@@ -328,9 +403,9 @@ Proof.
   - eapply run_oracle_nominmax; eauto using tree_inv_new.
 Qed.
 
-(** The hypothesis [minmax_safe] cannot be dropped: the model (like the Go code) answers
-    "not found" for Minimum when the first edge leads to a dead node. *)
-Lemma radix_minmax_after_delete_refuted :
+(** Minimum after a DeletePrefix that empties the first child: the first edge is unlinked,
+    so Minimum finds the remaining key. *)
+Lemma radix_minmax_after_delete_ok :
   let ops := [RInsert [1%N] 1%Z; RInsert [2%N] 2%Z; RDelPrefix [1%N]; RMin] in
-  smap_oracle [] ops (snd (r_run r_new ops)) = false.
+  smap_oracle [] ops (snd (r_run r_new ops)) = true.
 Proof. vm_compute. reflexivity. Qed.
